@@ -1092,15 +1092,34 @@ impl Writer {
         // NackFrag is negative acknowledgement only, i.e. requesting missing fragments.
 
         let reader_guid = GUID::new(reader_guid_prefix, nackfrag.reader_id);
-        if let Some(reader_proxy) = self.lookup_reader_proxy_mut(reader_guid) {
-          reader_proxy.mark_frags_requested(nackfrag.writer_sn, &nackfrag.fragment_number_state);
+        // How many fragments does the sample have? If we do not have the sample
+        // (any more), or it is not sent as fragments, there is nothing to repair
+        // by fragments.
+        let frag_count = self
+          .history_buffer
+          .get_by_sn(nackfrag.writer_sn)
+          .map(|cc| cc.data_value.payload_size())
+          .filter(|payload_size| *payload_size > self.data_max_size_serialized)
+          .map(|payload_size| self.num_frags_and_frag_size(payload_size).0);
+        let mut repair_needed = false;
+        if let Some(frag_count) = frag_count {
+          if let Some(reader_proxy) = self.lookup_reader_proxy_mut(reader_guid) {
+            reader_proxy.mark_frags_requested(
+              nackfrag.writer_sn,
+              &nackfrag.fragment_number_state,
+              frag_count,
+            );
+            repair_needed = reader_proxy.repair_frags_requested();
+          }
         }
-        self.timed_event_timer.set_timeout(
-          self.nackfrag_response_delay,
-          TimedEvent::SendRepairFrags {
-            to_reader: reader_guid,
-          },
-        );
+        if repair_needed {
+          self.timed_event_timer.set_timeout(
+            self.nackfrag_response_delay,
+            TimedEvent::SendRepairFrags {
+              to_reader: reader_guid,
+            },
+          );
+        }
       }
     }
   }
